@@ -63,7 +63,7 @@ def plot_params_2d(input_fits, parameter_x, parameter_y, output_dir=None,
         The x-axis label (if not specified, the parameter name is used)
     label_y : str, optional
         The y-axis label (if not specified, the parameter name is used)
-    additional : Table
+    additional : dict or Table
         A dictionary specifying additional parameters not listed in the
         parameter list for the models. Each item of the dictionary should
         itself be a dictionary giving the values for each model (where the key
@@ -89,12 +89,19 @@ def plot_params_2d(input_fits, parameter_x, parameter_y, output_dir=None,
 
     # Read in table of parameters for model grid
     t = load_parameter_table(fin.meta.model_dir)
-    if additional is not None:
+    if additional is not None and not isinstance(additional, dict):
         t = join(t, additional)
 
     # Sort alphabetically
     t['MODEL_NAME'] = np.char.strip(t['MODEL_NAME'])
     t.sort('MODEL_NAME')
+
+    # Additional parameters given as a dictionary (values for each model name)
+    if isinstance(additional, dict):
+        for par in additional:
+            if par in t.columns:
+                raise Exception("Parameter {0} already exists in table".format(par))
+            t[par] = np.array([additional[par].get(name, np.nan) for name in t['MODEL_NAME']], dtype=float)
     tpos = deepcopy(t)
     if log_x:
         tpos = tpos[tpos[parameter_x] > 0.]
